@@ -103,6 +103,8 @@ def run(repo: Repo, tier: str) -> Report:
         rep.ob("NB-TYPES", k.file, k.name, f"signature ({', '.join(f['args'])}) passes type inference", True, "",
                f"{k.name}({', '.join(f['args'])})", line=k.node.lineno, kind=f["origin"])
 
+    from ..rules import nb_layout
+    nb_layout(rep, kernels)
     # ---- NB-FLAGS: compile options that change floating-point or error semantics relative to the interpreter
     SAFE = {"nopython": {"True"}, "nogil": {"True", "False"}, "cache": {"True", "False"}, "parallel": {"True", "False"}}
     for k in kernels.values():
